@@ -25,7 +25,9 @@ def specLit (rows : List (List (Mat Val))) : Option (Mat Val) :=
   if cells.all Option.isSome then some ⟨R, C, cells.filterMap id⟩ else none
 
 def runC11 (fields : List String) (obs : String) : String × String × String :=
-  match fields with
+  -- an optional third field says how each block is written in the source (variable, nested literal,
+  -- expression value): the result must not depend on it
+  match (match fields with | [a, b, _forms] => [a, b] | other => other) with
   | [_, body] =>
     let rowsT := (body.splitOn ";;").map (fun r => r.splitOn ",,")
     match rowsT.mapM (fun r => r.mapM parseBlock) with
